@@ -2417,41 +2417,19 @@ fn format_unix_timestamp(unix_secs: u64) -> String {
     )
 }
 
-fn days_to_ymd(days: u64) -> (u32, u32, u32) {
-    // Simplified algorithm - works for dates from 1970 to ~2100
-    let mut remaining_days = days as i64;
-    let mut year = 1970u32;
-
-    loop {
-        let days_in_year = if is_leap_year(year) { 366 } else { 365 };
-        if remaining_days < days_in_year {
-            break;
-        }
-        remaining_days -= days_in_year;
-        year += 1;
-    }
-
-    let days_in_months: [i64; 12] = if is_leap_year(year) {
-        [31, 29, 31, 30, 31, 30, 31, 31, 30, 31, 30, 31]
-    } else {
-        [31, 28, 31, 30, 31, 30, 31, 31, 30, 31, 30, 31]
-    };
-
-    let mut month = 1u32;
-    for &days_in_month in &days_in_months {
-        if remaining_days < days_in_month {
-            break;
-        }
-        remaining_days -= days_in_month;
-        month += 1;
-    }
-
-    let day = (remaining_days + 1) as u32;
+fn days_to_ymd(days: u64) -> (u64, u32, u32) {
+    // Days since 1970-01-01 -> proleptic Gregorian (year, month, day), closed form
+    // (the civil-from-days algorithm): constant time for any day count.
+    let z = days + 719_468; // days since 0000-03-01
+    let era = z / 146_097;
+    let doe = z % 146_097; // day of the 400-year era [0, 146096]
+    let yoe = (doe - doe / 1_460 + doe / 36_524 - doe / 146_096) / 365; // year of era [0, 399]
+    let doy = doe - (365 * yoe + yoe / 4 - yoe / 100); // day of the March-based year [0, 365]
+    let mp = (5 * doy + 2) / 153; // March-based month [0, 11]
+    let day = (doy - (153 * mp + 2) / 5 + 1) as u32; // [1, 31]
+    let month = if mp < 10 { mp + 3 } else { mp - 9 } as u32; // [1, 12]
+    let year = yoe + era * 400 + u64::from(month <= 2);
     (year, month, day)
-}
-
-fn is_leap_year(year: u32) -> bool {
-    (year % 4 == 0 && year % 100 != 0) || (year % 400 == 0)
 }
 
 #[cfg(test)]
